@@ -2,13 +2,16 @@
 C35 — model of weed/wdclient/vid_map.go: the client's cache volume id ↦ locations.
 
 `vid2Locations` maps a volume id to a Go SLICE; `addLocation` appends (in place when the
-backing array has room, into a fresh array of doubled capacity otherwise), `deleteLocation`
-does `append(locations[0:i], locations[i+1:]...)`, which SHIFTS the tail left inside the
-same backing array.  `GetLocations` hands the slice itself to the caller.  To make the
-aliasing expressible, a map entry is modelled as its backing array (all `cap` cells) plus
-the slice length; a reader that keeps a returned slice keeps (volume, length) and sees
-whatever the cells hold later — unless the entry was re-allocated since, in which case
-its array is frozen (nobody writes to it any more).
+backing array has room, into a fresh array of doubled capacity otherwise); `GetLocations`
+hands the slice itself to the caller.  `deleteLocation` builds the shortened list in a FRESH
+array of exactly len-1 cells (since the repair in /repo; before it did
+`append(locations[0:i], locations[i+1:]...)`, which shifted the tail left inside the array
+the readers still held — that in-place form is kept below as `Cell.delInPlace` for contrast
+only).  To make the aliasing expressible, a map entry is modelled as its backing array (all
+`cap` cells) plus the slice length; a reader that keeps a returned slice keeps (volume,
+length) and sees whatever the cells hold later — unless the entry was re-allocated since
+(by a growing add or by a delete), in which case its array is frozen (nobody writes to it
+any more).
 
 Core Lean only.
 -/
@@ -32,8 +35,10 @@ def Cell.view (c : Cell) : List Loc := c.arr.take c.len
 
 def hasUrl (l : List Loc) (u : String) : Bool := l.any (fun x => x.url == u)
 
-/-- Go's `growslice` for one more element: double (capacities stay far below 256 and the
-    48-byte elements fall on exact allocator size classes) -/
+/-- Go's `growslice` for one more element: double.  Exact for the capacities the check reaches
+    (cap ≤ 5 before the step, at most 6 urls per volume: 96·cap bytes is an allocator size class for
+    cap = 1..5, so no rounding; every reported capacity is compared).  Larger or odd capacities may be
+    rounded up by the allocator; no theorem depends on the value. -/
 def growCap (cap : Nat) : Nat := if cap = 0 then 1 else 2 * cap
 
 /-- `addLocation` on an existing entry; the flag says "re-allocated" -/
@@ -42,9 +47,18 @@ def Cell.add (c : Cell) (loc : Loc) : Cell × Bool :=
   else if c.len < c.arr.length then ({ arr := c.arr.set c.len loc, len := c.len + 1 }, false)
   else ({ arr := c.view ++ [loc] ++ List.replicate (growCap c.arr.length - c.len - 1) zeroLoc, len := c.len + 1 }, true)
 
-/-- `deleteLocation`: first entry with that url; the cells after it move one to the left,
-    the cell that held the last element keeps its old content -/
-def Cell.del (c : Cell) (u : String) : Cell :=
+/-- `deleteLocation` (repaired): first entry with that url; the remaining entries are copied into a
+    fresh array of exactly len-1 cells (`make([]Location, 0, len(locations)-1)` + two appends); the old
+    array is not written.  The flag says "re-allocated". -/
+def Cell.del (c : Cell) (u : String) : Cell × Bool :=
+  let i := c.view.findIdx (fun x => x.url == u)
+  if i < c.len then ({ arr := c.view.eraseIdx i, len := c.len - 1 }, true)
+  else (c, false)
+
+/-- the PRE-REPAIR `deleteLocation` (`append(locations[0:i], locations[i+1:]...)`), for contrast only —
+    it is NOT what the code does any more: the cells after the match move one to the left inside the
+    same array, the cell that held the last element keeps its old content -/
+def Cell.delInPlace (c : Cell) (u : String) : Cell :=
   let i := c.view.findIdx (fun x => x.url == u)
   if i < c.len then
     { arr := c.arr.take i ++ (c.arr.drop (i + 1)).take (c.len - 1 - i) ++ c.arr.drop (c.len - 1), len := c.len - 1 }
@@ -61,20 +75,31 @@ structure St where
   vids : Nat → Option Cell := fun _ => none
   held : Option Held := none
 
+/-- a re-allocation of volume `vid`'s entry leaves the old array `old` to the reader that holds it -/
+def freezeHeld (held : Option Held) (realloc : Bool) (vid : Nat) (old : List Loc) : Option Held :=
+  match held with
+  | some h => if realloc ∧ h.vid = vid ∧ h.frozen.isNone then some { h with frozen := some old } else some h
+  | none => none
+
 def addLocation (st : St) (vid : Nat) (loc : Loc) : St :=
   match st.vids vid with
   | none => { st with vids := fun v => if v = vid then some { arr := [loc], len := 1 } else st.vids v }
   | some c =>
     let (c', realloc) := c.add loc
-    let held := match st.held with
-      | some h => if realloc ∧ h.vid = vid ∧ h.frozen.isNone then some { h with frozen := some c.arr } else some h
-      | none => none
-    { vids := fun v => if v = vid then some c' else st.vids v, held := held }
+    { vids := fun v => if v = vid then some c' else st.vids v, held := freezeHeld st.held realloc vid c.arr }
 
 def deleteLocation (st : St) (vid : Nat) (u : String) : St :=
   match st.vids vid with
   | none => st
-  | some c => { st with vids := fun v => if v = vid then some (c.del u) else st.vids v }
+  | some c =>
+    let (c', realloc) := c.del u
+    { vids := fun v => if v = vid then some c' else st.vids v, held := freezeHeld st.held realloc vid c.arr }
+
+/-- PRE-REPAIR `deleteLocation` (in place; the reader's array is written), for contrast only -/
+def deleteLocationInPlace (st : St) (vid : Nat) (u : String) : St :=
+  match st.vids vid with
+  | none => st
+  | some c => { st with vids := fun v => if v = vid then some (c.delInPlace u) else st.vids v }
 
 /-- `GetLocations` -/
 def getLocations (st : St) (vid : Nat) : Option (List Loc) := (st.vids vid).map Cell.view
